@@ -15,7 +15,7 @@ from mc import sched, world
 from mc.report import CheckBroken, add_sample, add_violation, count, new_part
 
 LEVEL = "model_checking"
-RULE = ("for each of 15 scenarios (2-3 real threads, <= 5 sends/receives each; plain, structured and silent entry points, blocking and non-blocking, messages including the empty string) every thread schedule with <= B preemptions "
+RULE = ("for each of 16 scenarios (2-3 real threads, <= 5 sends/receives each; plain, structured and silent entry points, blocking and non-blocking, messages including the empty string) every thread schedule with <= B preemptions "
         "(B = 2 quick, 3 thorough) is executed once on the real code; scheduling point = every line event in socket_hub.py, "
         "thread_socket/socket.py, broadcast_channel.py + blocking lock acquire + hub sleep + one failed polling round; a "
         "switch at a blocking point is free; preemptions are only placed directly before a line that touches shared hub "
@@ -42,7 +42,7 @@ ASSUMPTIONS = [
 ]
 
 HORIZON = 4000
-GROUPS = {"S6a": 64, "S6b": 64}
+GROUPS = {"S6a": 64, "S6b": 64, "S6c": 64}
 DEFAULT_GROUPS = 48
 
 # ----------------------------------------------------------------------------- scenarios (pure data, JSON-able)
@@ -68,6 +68,10 @@ SCENARIOS: Dict[str, List[Tuple[str, List[List[Any]]]]] = {
     "S6b": [("A", [["bconnect", "ca", "A", ["B", "C"]], ["bnb", "ca"], ["brecv", "ca"], ["brecv", "ca"]]),
             ("B", [["connect", "b", "B", "A", 0, P], ["send", "b", "rB"]]),
             ("C", [["connect", "c", "C", "A", 0, P], ["send", "c", "rC"]])],
+    # a broadcast channel on socket id 1: every member socket carries that id (the remotes use plain sockets with id 1)
+    "S6c": [("A", [["bconnect", "ca", "A", ["B", "C"], 1], ["bsend", "ca", "m1"]]),
+            ("B", [["connect", "b", "B", "A", 1, P], ["recv", "b"]]),
+            ("C", [["connect", "c", "C", "A", 1, P], ["recv", "c"]])],
     "S7": [("A", [["connect", "a", "A", "B", 0, P], ["send", "a", "m1"], ["send", "a", "m2"], ["close", "a"]]),
            ("B", [["connect", "b", "B", "A", 0, P], ["wait", "b"], ["recv", "b"], ["recv", "b"], ["nb", "b"]])],
     "S8": [("A", [["connect", "a", "A", "B", 0, P], ["sends", "a", "h1", "p1"], ["sends", "a", "h2", "p2"], ["recvs", "a"]]),
@@ -91,7 +95,7 @@ SCENARIOS: Dict[str, List[Tuple[str, List[List[Any]]]]] = {
             ("B", [["connect", "b0", "B", "A", 0, P], ["connect", "b1", "B", "A", 1, P], ["nbs", "b0"], ["nbq", "b1"],
                    ["drains_to", "b0", 2], ["drainq_to", "b1", 2], ["nbs", "b0"]])],
 }
-ORDER = ["S1", "S2", "S3a", "S3b", "S3c", "S4", "S5", "S6a", "S6b", "S7", "S8", "S9a", "S9b", "S10", "S11"]
+ORDER = ["S1", "S2", "S3a", "S3b", "S3c", "S4", "S5", "S6a", "S6b", "S6c", "S7", "S8", "S9a", "S9b", "S10", "S11"]
 
 
 # ----------------------------------------------------------------------------- running one schedule of one scenario
@@ -123,9 +127,10 @@ class Env:
             self.socks[name] = cls(me, remote, socket_id=sid)
             log.append(("connect", name, t0, ex.now()))
         elif k == "bconnect":
-            _, name, me, remotes = op
-            self.meta[name] = ("bc", me, list(remotes))
-            self.socks[name] = self.w.Broadcast(me, list(remotes))
+            _, name, me, remotes = op[:4]
+            self.meta[name] = ("bc", me, list(remotes), op[4] if len(op) > 4 else 0)
+            kw = {"socket_id": op[4]} if len(op) > 4 else {}      # a channel on another socket id than the default
+            self.socks[name] = self.w.Broadcast(me, list(remotes), **kw)
             log.append(("connect", name, t0, ex.now()))
         elif k == "send":
             try:
@@ -285,7 +290,7 @@ def channels(scen: str):
             if op[0] == "connect":
                 meta[op[1]] = (op[2], op[3], op[4], op[5])
             elif op[0] == "bconnect":
-                meta[op[1]] = ("bc", op[2], list(op[3]))
+                meta[op[1]] = ("bc", op[2], list(op[3]), op[4] if len(op) > 4 else 0)
     return meta
 
 
@@ -320,8 +325,8 @@ def judge(scen: str, res: sched.Result, devs, part) -> List[Tuple[str, str, Any]
                 m = meta[e[1]]
                 if m[0] == "bc":
                     for r in m[2]:
-                        sent.setdefault((m[1], r, 0), []).append(e[2])
-                        sends_done.setdefault((m[1], r, 0), []).append(e[4])
+                        sent.setdefault((m[1], r, m[3]), []).append(e[2])
+                        sends_done.setdefault((m[1], r, m[3]), []).append(e[4])
                 else:
                     sent.setdefault((m[0], m[1], m[2]), []).append(e[2])
                     sends_done.setdefault((m[0], m[1], m[2]), []).append(e[4])
@@ -347,7 +352,7 @@ def judge(scen: str, res: sched.Result, devs, part) -> List[Tuple[str, str, Any]
                 got.setdefault(ch, []).append(e[2])
             elif e[0] == "brecv" or (e[0] == "bnb" and e[2] is not None):
                 m = meta[e[1]]
-                got.setdefault((e[2], m[1], 0), []).append(e[3])
+                got.setdefault((e[2], m[1], m[3]), []).append(e[3])
             elif e[0] == "bnb":
                 count(part, f"{scen}/nb-empty")
                 if e[6]:
@@ -358,7 +363,7 @@ def judge(scen: str, res: sched.Result, devs, part) -> List[Tuple[str, str, Any]
             continue
         base, _, r = name.partition("/")
         m = meta[base]
-        ch = (r, m[1], 0) if m[0] == "bc" else (m[1], m[0], m[2])
+        ch = (r, m[1], m[3]) if m[0] == "bc" else (m[1], m[0], m[2])
         kind_of[ch] = CB if (m[0] != "bc" and m[3] == CB) else P
         if f["callback"] is not None:
             got.setdefault(ch, [])
@@ -407,7 +412,7 @@ def judge(scen: str, res: sched.Result, devs, part) -> List[Tuple[str, str, Any]
 def _ch_of(meta, name):
     base, _, r = name.partition("/")
     m = meta[base]
-    return (r, m[1], 0) if m[0] == "bc" else (m[1], m[0], m[2])
+    return (r, m[1], m[3]) if m[0] == "bc" else (m[1], m[0], m[2])
 
 
 _KEEP = {"connect": 2, "send": 3, "send-refused": 3, "recv": 3, "nb": 3, "brecv": 4, "bnb": 4, "close": 2, "wait": 2,
